@@ -50,6 +50,7 @@ def gen_world(rng, npels=None, fault_rate=None):
     if rng.random() < 0.6:
         targets += [("O", 0x2000)] * 2           # BMC built-in formats (json / text / cbor / custom)
     npels = npels or rng.randint(2, 5)
+    rcs = ["%04X" % rng.randrange(0x10000) for _ in range(2)]       # reason codes shared by the whole plan
     pels = []
     eids = set()
     for i in range(npels):
@@ -63,7 +64,6 @@ def gen_world(rng, npels=None, fault_rate=None):
         pool = None
         if c == "O":
             # ... and few reason codes, so that the same reason code occurs under different SRC types
-            rcs = ["%04X" % rng.randrange(0x10000) for _ in range(2)]
             pool = ["%s%s%s" % (h, cc, rng.choice(rcs)) for h in ("BD", "BC", "11", "BD") for cc in rng.sample(["8D", "20", "75", "E5"], 2)]
         r = pelgen.gen_pel(rng, eid=eid, creator=c, ud_targets=targets, max_sections=7, want_class="serviceable",
                            refcode_pool=pool)
